@@ -152,9 +152,10 @@ def _form(coll, form):
     return new_collection(coll.expr.lower_completely())
 
 
-def _op_of(q):
+def _op_of(q, v=None):
     tags = sp.flags(q).get("tags", [])
-    if q.endswith("_arrow") or "pqf" in tags:
+    arrow_variant = v is not None and tuple(sp.POOL[q][2][v]) == ("fs", "arrow")
+    if q.endswith("_arrow") or "pqf" in tags or arrow_variant:
         return "read_parquet[arrow]"
     if "set_index" in tags:
         return "set_index"
@@ -228,7 +229,7 @@ def compare(rec, got):
 
 
 def _failure(rec, field, desc):
-    return Failure(sig={"kind": "pickle", "form": rec["form"], "op": _op_of(rec["q"])},
+    return Failure(sig={"kind": "pickle", "form": rec["form"], "op": _op_of(rec["q"], rec.get("v"))},
                    case={"q": rec["q"], "v": rec.get("v"), "form": rec["form"]},
                    detail=f"{rec['q']} [{rec['form']}] {desc}")
 
